@@ -153,7 +153,7 @@ def _c14():
 REGISTRY = {
 	"C14": _c14,
 	"C02": lambda: _um("C02", "Profile C02: tuning/hopping heavy plans over a small frequency pool, bursts from every transceiver."),
-	"C03": lambda: _um("C03", runs_quick=4000, what="Profile C03 (45 % of runs): burst arrivals at any advance (-5..+25, far future, beyond the hyperframe), duplicates, power cycles, SETFORMAT changes. Race profile (55 % of runs, fine schedules): one arrival / POWEROFF / POWERON / SETFORMAT / SETFH / tuning datagram released at exactly the instant of a clock tick, both threads interleaved at source-line granularity (change-point sweep over the source lines of the race window, PCT with 2-3 change points, random walk), judged by a burst-centric linearisation-tolerant oracle with passive sniffer transceivers."),
+	"C03": lambda: _um("C03", runs_quick=5000, what="Profile C03 (45 % of runs): burst arrivals at any advance (-5..+25, far future, beyond the hyperframe), duplicates, power cycles, SETFORMAT changes. Race profile (55 % of runs, fine schedules): one arrival / POWEROFF / POWERON / SETFORMAT / SETFH / tuning datagram released at exactly the instant of a clock tick, both threads interleaved at source-line granularity (change-point sweep over the source lines of the race window, PCT with 2-3 change points, random walk), judged by a burst-centric linearisation-tolerant oracle with passive sniffer transceivers."),
 	"C05": lambda: _um("C05", "Profile C05: command heavy plans over every verb, argument count and value range, foreign source ports, non-CMD datagrams, response delays."),
 	"C10": lambda: _um("C10", "Profile C10: metadata heavy plans (SETPOWER, SETTA, FAKE_TOA/RSSI/CI at the protocol boundaries), NB/SB/AB/FB/dummy/random/EDGE bursts."),
 	"C12": lambda: _um("C12", "Profile C12: power histories over parents and children, random port plans."),
